@@ -147,6 +147,8 @@ structure RealSt where
   stale : Nat := 0
   /-- one of them executed after that reset -/
   staleLanded : Bool := false
+  /-- a `ResetPipeline` call is waiting for the handler -/
+  pendingReset : Bool := false
   /-- first failing predicate, and whether a stale write had landed before -/
   fail : Option (String × Bool) := none
   deliveries : Nat := 0
@@ -206,10 +208,23 @@ def realStep (r : RealSt) (a rr : String) (i n : Nat) (o : Obs) : RealSt := Id.r
     | none => r := r.violate "query_shape"
     | some cur => if cur > r.ackHW then r := r.violate "cursor_le_acked"
   if r.persisted > r.ackHW then r := r.violate "persisted_le_acked"
-  -- a reset that takes effect in this step does so after the gated call of the step
-  -- (the handler notices the stop only when that call returned)
-  if o.writes.contains resetWrite && o.res ≠ "notFound" then
-    r := { r with persisted := 0, ackHW := 0, delivHW := 0, staleLanded := false, stale := countP o.w }
+  -- a reset that completes in this step does so after the gated call of the step (the
+  -- handler notices the stop only when that call returned). The reset is recognised by the
+  -- OPERATION completing; whether it cleared `last_log_id` is read off the write it issued.
+  let resetDone := (a = "reset" && o.res = "ok") || (r.pendingReset && o.opDone ≠ "")
+  if a = "reset" && o.res = "pending" then r := { r with pendingReset := true }
+  if o.opDone ≠ "" then r := { r with pendingReset := false }
+  if o.res ≠ "notFound" then
+    for wr in o.writes do
+      if wr.startsWith "update:" then
+        if (wr.splitOn "last_log_id=<nil>;").length > 1 then r := { r with persisted := 0 }
+        else match (wr.splitOn "last_log_id=") with
+          | [_, rest] => match (rest.takeWhile Char.isDigit).toNat? with
+            | some n => r := { r with persisted := n }
+            | none => pure ()
+          | _ => pure ()
+  if resetDone then
+    r := { r with ackHW := 0, delivHW := 0, staleLanded := false, stale := countP o.w }
     r := (r.tag "reset").tag (if countP o.w > 0 then "reset-with-write-in-flight" else "reset-quiet")
     r := { r with disturbances := r.disturbances + 1 }
   if r.persisted > r.ackHW then r := r.violate "persisted_le_acked"
